@@ -334,7 +334,7 @@ RULE = ('cases = (transform form, table, arguments); %d forms covering cut, cuto
         'namedtuples / columns accessors; seeded random tables of 0-5 rows x 1-4 fields, ragged rows (40 %% of cases where the form tolerates them), '
         'duplicate field names where resolution is by the index/name rule, field selection by name / index / mixed, negative and out-of-range '
         'insertion indices. Non-trivial: >= 2 data rows. Distinct = SHA-1 of the case.' % len(FORMS))
-REQUIRED = ['form:' + f for f in FORMS] + ['ragged-judged', 'duplicate-names-judged', 'frame-condition-used', 'exact-comparison-used',
+REQUIRED = ['views-read-twice'] + ['form:' + f for f in FORMS] + ['ragged-judged', 'duplicate-names-judged', 'frame-condition-used', 'exact-comparison-used',
                                            'negative-or-out-of-range-insertion-index', 'cat:repeated-field-name-in-a-later-table',
                                            'fieldmap:suffix-notation-two-views']
 
@@ -400,7 +400,7 @@ def judge(case, ctx):
 
 
 def _run(fn):
-    return util.attempt_rows(fn)
+    return util.attempt_rows_twice(fn)
 
 
 def j_cut(case, ctx, table, hdr, rows, tabs, frame):
